@@ -511,6 +511,13 @@ pub fn run(opts: &Opts) -> Report {
         for (name, doc, extra) in multi {
             cases.push(Case { format: "json", class: format!("json/crafted/{}", name), main: doc.into_bytes(), extra: extra.into_iter().map(|(n, b)| (n.to_string(), b.into_bytes())).collect() });
         }
+        // include paths that are not a file next to the document: directories (the root has no parent), the empty path,
+        // dot paths, a file URL, an absolute path to nothing — for stores, datasets and resources
+        for (pi, path) in ["/", "//", "/.", "/..", "file:///", ".", "..", "./", "", " ", "/nonexistent-dir/x.store.stam.json", "/tmp", "sub/../x.store.stam.json", "\\u0000"].iter().enumerate() {
+            cases.push(Case { format: "json", class: format!("json/crafted/include/path/store-{}", pi), main: st("a", &format!("\"{}\"", path), &a("a1", "r-a")).into_bytes(), extra: vec![] });
+            cases.push(Case { format: "json", class: format!("json/crafted/include/path/dataset-{}", pi), main: format!("{{\"@type\": \"AnnotationStore\", \"resources\": [], \"annotationsets\": [{{\"@type\": \"AnnotationDataSet\", \"@id\": \"s\", \"@include\": \"{}\"}}], \"annotations\": []}}", path).into_bytes(), extra: vec![] });
+            cases.push(Case { format: "json", class: format!("json/crafted/include/path/resource-{}", pi), main: format!("{{\"@type\": \"AnnotationStore\", \"resources\": [{{\"@type\": \"TextResource\", \"@id\": \"r\", \"@include\": \"{}\"}}], \"annotationsets\": [], \"annotations\": []}}", path).into_bytes(), extra: vec![] });
+        }
     }
     // ---- STAM CSV of a small store with complex selectors over annotation selectors with offsets: every ';'-separated
     //      list of every such row loses its last / first element or has one element blanked (exhaustively)
